@@ -30,6 +30,7 @@ func runC04(c *an.Ctx) string {
 	r049MustValidate(c)
 	r041HandlerGate(c)
 	r172ValidateFormat(c) // R04.10: runtime format validators (rule ids R17.2/R17.3)
+	r181MergeErrors(c)    // shared with C18 (rule id R18.1): merged validation errors stay 400-class (Fault only if both are)
 	return explanationC04
 }
 
